@@ -47,8 +47,8 @@ static std::string body(int form, const std::string& X)
     return "";
 }
 
-enum { CX_GUARD, CX_INV, CX_SYNC, CX_SELECT, CX_INIT, CX_ARRSIZE, CX_RANGE, CX_ARG, CX_QUANT, CX_ASSERT, CX_PROB, CX_LOCALINIT, CX_QUERY, CX_SUM, NCX };
-static const char* CXNAME[] = {"guard", "invariant", "sync", "select", "initialiser", "array-size", "range-bound", "instantiation-arg", "quantified-body", "assert", "probability", "template-local-initialiser", "query", "sum-body"};
+enum { CX_GUARD, CX_INV, CX_SYNC, CX_SELECT, CX_INIT, CX_ARRSIZE, CX_RANGE, CX_ARG, CX_QUANT, CX_ASSERT, CX_PROB, CX_LOCALINIT, CX_QUERY, CX_SUM, CX_REFARG, NCX };
+static const char* CXNAME[] = {"guard", "invariant", "sync", "select", "initialiser", "array-size", "range-bound", "instantiation-arg", "quantified-body", "assert", "probability", "template-local-initialiser", "query", "sum-body", "reference-instantiation-arg"};
 
 // whole model with int-valued expression E placed in context cx; `funcs` are the declarations E needs
 static std::string model(int cx, const std::string& funcs, const std::string& E)
@@ -58,7 +58,7 @@ static std::string model(int cx, const std::string& funcs, const std::string& E)
     if (cx == CX_ARRSIZE) s += "int a5[" + E + "];\n";
     if (cx == CX_RANGE) s += "int[0, " + E + "] v6;\n";
     if (cx == CX_ASSERT) s += "void h() { assert((" + E + ") > 0); }\n";
-    s += "process Q(int p) { state S0; init S0; }\n";
+    s += "process Q(int p) { state S0; init S0; }\nprocess QR(int &rp) { state S0; init S0; }\n";
     s += "process P() {\n";
     if (cx == CX_LOCALINIT) s += " int v11 = " + E + ";\n";
     s += " state A";
@@ -72,7 +72,9 @@ static std::string model(int cx, const std::string& funcs, const std::string& E)
     s += " }, A -> BP { }, BP -> B {";
     if (cx == CX_PROB) s += " probability " + E + ";";
     s += " };\n}\n";
-    if (cx == CX_ARG) s += "Q1 = Q(" + E + ");\nsystem P, Q1;\n"; else s += "system P;\n";
+    if (cx == CX_ARG) s += "Q1 = Q(" + E + ");\nsystem P, Q1;\n";
+    else if (cx == CX_REFARG) s += "QR1 = QR(" + E + ");\nsystem P, QR1;\n";   // an argument for a non-const reference parameter: an l-value, still no side effects
+    else s += "system P;\n";
     return s;
 }
 
@@ -96,15 +98,16 @@ static void verdicts(int cx, const std::string& wf, const std::string& we, const
     vf_reach("end");
 }
 
-extern "C" void harness_direct()  /* vf: bounds=20_direct_write_expressions(=,:=,10_compound,pre/post_inc/dec,array_element,struct_field)_x_14_contexts */
+extern "C" void harness_direct()  /* vf: bounds=20_direct_write_expressions(=,:=,10_compound,pre/post_inc/dec,array_element,struct_field)_x_15_contexts */
 {
     int cx = vf_pick("!context", NCX), w = vf_pick("!write", NDIRECT);
-    verdicts(cx, "", DIRECT[w], "", "K");
+    verdicts(cx, "", DIRECT[w], "", cx == CX_REFARG ? "g" : "K");
 }
 
 extern "C" void harness_function_writer()  /* vf: bounds=writer_function:17_statement_forms_x_3_inner_writes(quick)/8(thorough)_x_14_contexts;twin_writes_a_local */
 {
     int cx = vf_pick("!context", NCX), form = vf_pick("!form", NFORM), in = vf_pick("!inner", NINNER);
+    vf_assume(cx != CX_REFARG);   // a call is not an l-value
     // a local initialiser must itself be side-effect free (even for writes to locals), so for that form the twin reads instead of writing
     std::string twin = form == 12 ? "l + 1" : INNER[in][1];
     verdicts(cx, "int w() {" + body(form, INNER[in][0]) + " }\n", "w()", "int w() {" + body(form, twin) + " }\n", "w()");
@@ -113,6 +116,7 @@ extern "C" void harness_function_writer()  /* vf: bounds=writer_function:17_stat
 extern "C" void harness_call_chain()  /* vf: bounds=call_chain_depth_1..3_above_a_writer;chain_link_in_3_positions(statement,return_value,argument);write_through_reference_parameter_depth_0..2;14_contexts */
 {
     int cx = vf_pick("!context", NCX), depth = vf_range("!depth", 1, 3), link = vf_pick("!link", 3), viaref = vf_pick("!viaref", 2);
+    vf_assume(cx != CX_REFARG);
     std::string wf, tf;
     if (viaref) {
         // the write happens through a non-constant reference parameter; the chain passes the reference on
